@@ -330,7 +330,27 @@ class Machine:
             s.write_const(p, t, init)
         else:
             s.objs[p.obj].zero.append((0, sizeof(t)))
+            if name in ('@_ZSt4cout', '@_ZSt4cerr', '@_ZSt4clog'):
+                s._fake_ostream(p)
         return p
+
+    def _fake_ostream(s, p):
+        """std::cout & co. have no initialiser in the module.  Inlined std::endl reads the stream's virtual-base offset and
+        its ctype facet (widen('\\n')) before calling put/flush (which are no-op stubs): give those loads benign values."""
+        vt = s.alloc(64, 'global', 'fake-ostream-vtable')
+        s.objs[vt.obj].zero.append((0, 64))
+        s.store(Ptr(vt.obj, 0), 8, 8)                      # vbase offset of basic_ios inside basic_ostream
+        s._clear(s.objs[p.obj], 0, 8)
+        s.store(Ptr(p.obj, 0), Ptr(vt.obj, 24), 8)         # vptr -> vtable + 24  (offset -24 holds the vbase offset)
+        ct = s.alloc(600, 'global', 'fake-ctype')
+        s.objs[ct.obj].zero.append((0, 600))
+        s._clear(s.objs[ct.obj], 56, 1)
+        s.store(Ptr(ct.obj, 56), 1, 1)                     # _M_widen_ok
+        for ch in range(256):
+            s._clear(s.objs[ct.obj], 57 + ch, 1)
+            s.store(Ptr(ct.obj, 57 + ch), ch, 1)           # _M_widen table = identity
+        s._clear(s.objs[p.obj], 8 + 240, 8)
+        s.store(Ptr(p.obj, 8 + 240), ct, 8)                # basic_ios::_M_ctype
 
     def write_const(s, p, t, c):
         t = res(t)
